@@ -3817,6 +3817,11 @@ class ISLaEmitter(IslaLanguageListener.IslaLanguageListener):
     def exitSMTFormula(self, ctx: IslaLanguageParser.SMTFormulaContext):
         formula_text = self.smt_expressions[ctx.sexpr()]
         formula_text = formula_text.replace(r"\"", '""')
+        # Z3 reads the text byte-wise; non-ASCII characters have to be passed as
+        # SMT-LIB unicode escapes.
+        formula_text = "".join(
+            char if ord(char) < 128 else f"\\u{{{ord(char):x}}}" for char in formula_text
+        )
 
         # We have to replace XPath expressions in the formula, since they can break
         # the parsing (e.g., with `<a>[2]` indexed expressions).
